@@ -59,7 +59,9 @@ func prop(id, rule string, run func(c *vh.Ctx)) vh.Prop {
 			if n, err := strconv.Atoi(os.Getenv("XDSCONV_PARALLEL")); err == nil && n > 0 {
 				return n
 			}
-			return map[string]int{"quick": 6, "thorough": 14}[t]
+			// a thorough child holds up to ~5 GB (race detector shadow memory of several control planes): 7 alive at once
+			// keep the run inside 64 GB; 14 at once exhausted the memory of this machine and never finished
+			return map[string]int{"quick": 6, "thorough": 7}[t]
 		},
 		TimeoutSec: func(t string) int { return map[string]int{"quick": 1200, "thorough": 5400}[t] },
 		// no connection rate limiting: its timer waits would look like idleness
